@@ -443,3 +443,9 @@ func samePE(a, b PathElement) bool {
 	}
 	return a == b
 }
+
+// specIsRawArray: a plain JSON array, not yet read as list, set or multiset.
+func specIsRawArray(n JsonNode) bool {
+	_, ok := n.(jsonArray)
+	return ok
+}
